@@ -163,11 +163,7 @@ def inMatchStruct : Nat → Word → List MatchEl → Nat → List Item → Opti
           else if p2.gi != 0 then pure ⟨false, caps, si, p2, b2⟩
           else
             match var with
-            | some v =>
-              -- NB: the code indexes with the *advanced* position (`word.syllables[pos.syll_index]`)
-              match w.sylls[p2.si]? with
-              | none => .panic "input_match_structure: word.syllables[pos.syll_index] (variable assignment)"
-              | some σ' => pure ⟨true, caps ++ [.syllable cur none], si + 1, p2, b2.setVar v (.syll σ')⟩
+            | some v => pure ⟨true, caps ++ [.syllable cur none], si + 1, p2, b2.setVar v (.syll σ)⟩
             | none => pure ⟨true, caps ++ [.syllable cur none], si + 1, p2, b2⟩
 
 /-- the item loop of `input_match_structure` (variables allowed, items never reversed) -/
